@@ -61,7 +61,7 @@ var c07Inputs = []string{"red", "the red fox", "blue", "7", "yes please", "", "R
 
 func runC07(c *Ctx) {
 	r := c.Rng
-	env := envs.NewBuilder().WithAllowedLanguages("eng", "fra").Build()
+	env := envs.NewBuilder().WithAllowedLanguages("eng", "fra", "spa").Build()
 	n := c.N(2500, 120000)
 	for i := 0; i < n; i++ {
 		us := &uuidSeq{n: i * 100}
@@ -86,7 +86,14 @@ func runC07(c *Ctx) {
 			t := Pick(r, c07Tests)
 			args := append([]string{}, Pick(r, t.args)...)
 			cc := c07Case{uuid: us.next(), test: t.name, args: args, cat: r.Intn(ncat)}
-			if r.Chance(30) {
+			if i%6 == 3 && len(args) > 0 {
+				// every sixth flow: arguments translated throughout, into words the inputs use (so that which language's
+				// arguments are tested decides the exit)
+				cc.fraArgs = append([]string{}, args...)
+				for ai := range cc.fraArgs {
+					cc.fraArgs[ai] = Pick(r, []string{"rouge", "red", "7", "blue", "yes", "fox"})
+				}
+			} else if r.Chance(30) {
 				switch r.Intn(4) {
 				case 0:
 					cc.fraArgs = append([]string{}, args...)
@@ -117,10 +124,16 @@ func runC07(c *Ctx) {
 		}
 		operand := Pick(r, c07Operands)
 		input := Pick(r, c07Inputs)
-		contactLang := Pick(r, []string{"eng", "fra", "fra", ""})
-		// the flow's own language, and the language of its translations: either may be the environment's default (eng)
-		baseLang := Pick(r, []string{"eng", "eng", "fra"})
-		trLang := map[string]string{"eng": "fra", "fra": "eng"}[baseLang]
+		contactLang := Pick(r, []string{"eng", "fra", "fra", "", "spa"})
+		// the flow's own language, and the language of its translations: either may be the environment's default (eng), and the
+		// contact's language may be a third one (then the default's translation is the one to use)
+		baseLang := Pick(r, []string{"eng", "eng", "fra", "spa"})
+		trLang := Pick(r, map[string][]string{"eng": {"fra", "fra", "spa"}, "fra": {"eng", "eng", "spa"}, "spa": {"eng", "eng", "fra"}}[baseLang])
+		if i%12 == 3 {
+			// a contact in a third language: neither the flow's nor the one translated into, which is the environment's default
+			contactLang, baseLang, trLang = Pick(r, []string{"fra", "spa"}), "", "eng"
+			baseLang = map[string]string{"fra": "spa", "spa": "fra"}[contactLang]
+		}
 		mode := Pick(r, []string{"switch", "switch", "switch", "timeout", "random", "twice"})
 
 		// ---- definition -------------------------------------------------------------------
